@@ -48,15 +48,18 @@ XRef(t, p) ==
   ELSE <<-1, p>>
 
 \* attribute value / character data up to the terminator; literal CR / CRLF are normalised to LF (XML 1.0 section 2.11)
-RECURSIVE XChars(_, _, _, _)
-XChars(t, p, stop, acc) ==     \* stop = set of code points that end the run; returns [ok, s, p]
+\* in attribute values literal TAB / LF / CR (after end-of-line normalisation) become a space (XML 1.0 section 3.3.3)
+RECURSIVE XCharsA(_, _, _, _, _)
+XCharsA(t, p, stop, acc, attr) ==     \* stop = set of code points that end the run; returns [ok, s, p]
   IF p > Len(t) THEN [ok |-> TRUE, s |-> acc, p |-> p]
   ELSE LET c == t[p] IN
     IF c \in stop THEN [ok |-> TRUE, s |-> acc, p |-> p]
-    ELSE IF c = 38 THEN LET r == XRef(t, p) IN IF r[1] < 0 THEN [ok |-> FALSE, s |-> acc, p |-> p] ELSE XChars(t, r[2], stop, Append(acc, r[1]))
+    ELSE IF c = 38 THEN LET r == XRef(t, p) IN IF r[1] < 0 THEN [ok |-> FALSE, s |-> acc, p |-> p] ELSE XCharsA(t, r[2], stop, Append(acc, r[1]), attr)
     ELSE IF ~IsXmlChar(c) THEN [ok |-> FALSE, s |-> acc, p |-> p]
-    ELSE IF c = 13 THEN XChars(t, IF p + 1 <= Len(t) /\ t[p + 1] = 10 THEN p + 2 ELSE p + 1, stop, Append(acc, 10))
-    ELSE XChars(t, p + 1, stop, Append(acc, c))
+    ELSE IF c = 13 THEN XCharsA(t, IF p + 1 <= Len(t) /\ t[p + 1] = 10 THEN p + 2 ELSE p + 1, stop, Append(acc, IF attr THEN 32 ELSE 10), attr)
+    ELSE IF attr /\ c \in {9, 10} THEN XCharsA(t, p + 1, stop, Append(acc, 32), attr)
+    ELSE XCharsA(t, p + 1, stop, Append(acc, c), attr)
+XChars(t, p, stop, acc) == XCharsA(t, p, stop, acc, FALSE)
 
 RECURSIVE XAttrs(_, _, _)
 XAttrs(t, p, acc) ==      \* after the element name; returns [ok, attrs, p] with p at '/' or '>'
@@ -70,7 +73,7 @@ XAttrs(t, p, acc) ==      \* after the element name; returns [ok, attrs, p] with
       IF e1 > Len(t) \/ t[e1] # 61 THEN [ok |-> FALSE, attrs |-> acc, p |-> e1]
       ELSE LET v0 == XSkipWs(t, e1 + 1) IN
         IF v0 > Len(t) \/ t[v0] \notin {34, 39} THEN [ok |-> FALSE, attrs |-> acc, p |-> v0]
-        ELSE LET r == XChars(t, v0 + 1, {t[v0], 60}, <<>>) IN
+        ELSE LET r == XCharsA(t, v0 + 1, {t[v0], 60}, <<>>, TRUE) IN
           IF ~r.ok \/ r.p > Len(t) \/ t[r.p] # t[v0] THEN [ok |-> FALSE, attrs |-> acc, p |-> r.p]
           ELSE XAttrs(t, r.p + 1, Append(acc, <<SubSeq(t, q, ne - 1), r.s>>))
 
@@ -173,11 +176,15 @@ XmlText(v) ==
   ELSE StrBytesToCps(v[2])[2]
 
 N(s) == s
-RECURSIVE XmlEl(_, _), XmlArrKids(_, _), XmlMapKids(_, _)
+RECURSIVE XmlEl(_, _), XmlArrKids(_, _), XmlMapKids(_, _), XmlMapAttrs(_, _)
+\* members whose key is <<"attr", name>> are attributes of the object's element
+XmlMapAttrs(pairs, i) ==
+  IF i > Len(pairs) THEN <<>>
+  ELSE (IF pairs[i][1][1] = "attr" THEN <<<<StrBytesToCps(pairs[i][1][2])[2], XmlText(pairs[i][2])>>>> ELSE <<>>) \o XmlMapAttrs(pairs, i + 1)
 \* element `name` carrying value v
 XmlEl(name, v) ==
   IF v[1] = "arr" THEN <<name, <<>>, XmlArrKids(v[2], 1), <<>>>>
-  ELSE IF v[1] = "map" THEN <<name, <<>>, XmlMapKids(v[2], 1), <<>>>>
+  ELSE IF v[1] = "map" THEN <<name, XmlMapAttrs(v[2], 1), XmlMapKids(v[2], 1), <<>>>>
   ELSE <<name, <<>>, <<>>, XmlText(v)>>
 XmlArrKids(items, i) ==
   IF i > Len(items) THEN <<>>
@@ -185,6 +192,7 @@ XmlArrKids(items, i) ==
        \o XmlArrKids(items, i + 1)
 XmlMapKids(pairs, i) ==
   IF i > Len(pairs) THEN <<>>
+  ELSE IF pairs[i][1][1] = "attr" THEN XmlMapKids(pairs, i + 1)          \* attributes are not child elements
   ELSE <<XmlEl(IF pairs[i][1][1] = "str" THEN StrBytesToCps(pairs[i][1][2])[2] ELSE KeyText(pairs[i][1]), pairs[i][2])>> \o XmlMapKids(pairs, i + 1)
 \* the whole document: root object -> <root>, root array -> <array>
 XmlDoc(v) == XmlEl(IF v[1] = "arr" THEN <<97, 114, 114, 97, 121>> ELSE <<114, 111, 111, 116>>, v)
